@@ -7,6 +7,10 @@
 #endif
 #define VO_RAWMAX 8         /* opaque (non-EC) signature length bound on the sign side */
 struct bignum_st { unsigned char b[VO_IMAX]; unsigned len; int live; };   /* minimal big-endian bytes */
+/* set whenever a stub answers "failed" by its own (nondeterministic) choice: lets a harness state
+ * "the library succeeds whenever OpenSSL does" */
+extern int vo_oracle_failed;
+#define VO_FAILS() (nondet_bool() ? (vo_oracle_failed = 1) : 0)
 extern int vo_key_type;                 /* EVP_PKEY_get_id() of the key object (symbolic) */
 extern unsigned vo_verify_calls, vo_sign_calls, vo_hmac_calls;
 extern const EVP_MD *vo_md;             /* digest given to Digest{Verify,Sign}Init */
